@@ -1,10 +1,9 @@
 #!/usr/bin/env bash
 # Runs every kept seeded change against the checks listed for it in seeded/MAP.tsv
-# (scratch worktrees only) and rewrites seeded/results.log.
-cd /verif; : > seeded/results.log.new
-while IFS=$'\t' read -r d checks; do
-  [ -z "$d" ] && continue
-  ./seedtest.sh "seeded/$d/patch.diff" "${1:-quick}" $checks >> seeded/results.log.new 2>&1
-done < seeded/MAP.tsv
-mv seeded/results.log.new seeded/results.log
-grep -c 'exit=1' seeded/results.log
+# (scratch worktrees only, 3 at a time) and rewrites seeded/results.log.
+cd /verif; rm -rf .work/seedall; mkdir -p .work/seedall
+tier="${1:-quick}"
+grep -v '^$' seeded/MAP.tsv | while IFS=$'\t' read -r d checks; do echo "$d|$checks"; done | \
+  xargs -P 3 -I{} bash -c 'l="{}"; d="${l%%|*}"; c="${l#*|}"; ./seedtest.sh "seeded/$d/patch.diff" '"$tier"' $c > ".work/seedall/$d.log" 2>&1'
+cat .work/seedall/*.log | grep '^SEEDTEST' | sort > seeded/results.log
+echo "detected: $(grep -c 'exit=1' seeded/results.log)  silent: $(grep -c 'exit=0' seeded/results.log)  other: $(grep -vc 'exit=[01]' seeded/results.log)"
